@@ -524,11 +524,16 @@ LEVEL_TEXT = (
     "Coq theorems over all parental tract layouts, intervals and draw streams (no size bound) about a Gallina model of "
     "start_segment/get_segment/_simulate's per-child loop; the model is tied to /repo on every run by evaluating, inside "
     "Coq, model-vs-implementation agreement and the property's finite checker on thousands of generated kernel calls and "
-    "on every child of every generation of recorded simulate_gt runs."
+    "on every child of every generation of recorded simulate_gt runs. In addition the MiniPy syntax of start_segment, "
+    "get_segment and of the per-child loop of _simulate is regenerated from /repo's current source on every run "
+    "(harness/pytrans.py) and proved, for all inputs, to denote exactly the hand-written model (coq/translated/TV_C01*.v)."
 )
 LEVEL_NOTE = (
-    "Trusted: Coq kernel/vm_compute; the hand-written model (validated only differentially); recorded numpy draws are "
-    "inputs (universally quantified in the theorems); cM values are opaque tokens. Theorems are stated under the kernel "
-    "precondition _simulate establishes (sorted parent reaching the interval end)."
+    "Trusted: Coq kernel/vm_compute; for start_segment/get_segment/the per-child loop the translator (Python ast -> "
+    "MiniPy syntax) and the MiniPy interpreter's reading of Python, both exercised by the tv_kernel/tv_child relations; "
+    "the numpy statements of _simulate before the loop (parent and recombination draws) stay hand-modelled and enter as "
+    "recorded data (universally quantified in the theorems); cM values are opaque tokens. Theorems are stated under the "
+    "kernel precondition _simulate establishes (sorted parent reaching the interval end)."
 )
-TECHNIQUE = "Coq proof by induction on tract lists + vm_compute-evaluated correspondence against the implementation"
+TECHNIQUE = ("Coq proof by induction on tract lists; model regenerated from the source by a translator and proved equal to "
+             "the hand-written model (translation validation) + vm_compute-evaluated correspondence against the implementation")
